@@ -14,7 +14,7 @@ use std::collections::{BTreeMap, BTreeSet};
 pub fn compose_table(lang: &str) -> Vec<(&'static str, &'static str, char)> {
     match lang {
         "de" => vec![("ÄÖÜäöü", "AOUaou", '\u{308}')],
-        "xd" => vec![("ÄÖÜäöü", "AOUaou", '\u{308}'), ("Éé", "Ee", '\u{301}')],
+        "xd" => vec![("ÄÖÜäöü", "AOUaou", '\u{308}'), ("Éé", "Ee", '\u{301}'), ("ĳ", "i", 'j'), ("Ĳ", "I", 'J')],
         "es" => vec![
             ("ÁÉÍÓÚáéíóú", "AEIOUaeiou", '\u{301}'),
             ("Ññ", "Nn", '\u{303}'),
@@ -71,7 +71,7 @@ pub fn deleted_by_composition(lang: &str) -> Vec<char> {
 pub fn expanding_table(lang: &str) -> Vec<(char, &'static str)> {
     match lang {
         "de" => vec![('ẞ', "SS"), ('ß', "ss")],
-        "xd" => vec![('ẞ', "S"), ('ß', "s")],
+        "xd" => vec![('ẞ', "S"), ('ß', "s"), ('ĳ', "ij"), ('Ĳ', "IJ")],
         "fr" => vec![('Æ', "AE"), ('æ', "ae"), ('Œ', "OE"), ('œ', "oe"), ('Ø', "OE"), ('ø', "oe")],
         "xk" => vec![('ゟ', "より")],
         // the reduce-only language: every entry of its reduce table (two of them do not lengthen the text)
@@ -142,16 +142,17 @@ pub fn compose(lang: &str, input: &[char]) -> Vec<char> {
 
 /// Accent folding of one (composed) character: `None` when the language leaves it alone.
 pub fn fold(lang: &str, c: char) -> Option<String> {
+    // (a composed letter with an entry of its own in the reduction table is reduced as that entry says)
+    for (x, to) in expanding_table(lang) {
+        if x == c {
+            return Some(to.to_string());
+        }
+    }
     if folds_composed(lang) {
         for a in accents(lang) {
             if a.composed == c {
                 return Some(a.base.to_string());
             }
-        }
-    }
-    for (x, to) in expanding_table(lang) {
-        if x == c {
-            return Some(to.to_string());
         }
     }
     None
